@@ -239,9 +239,22 @@ impl ParsedValue {
     ) -> Result<(BTreeMap<String, ParsedValue>, &'a str)> {
         let mut depth = 0usize;
         let mut index = None;
+        // the braces inside the strings of the arguments (`{"x": "smile :-}"}`) are text, not structure.
+        let mut in_string = false;
+        let mut escaped = false;
 
         for (i, c) in s.char_indices() {
+            if in_string {
+                match c {
+                    _ if escaped => escaped = false,
+                    '\\' => escaped = true,
+                    '"' => in_string = false,
+                    _ => {}
+                }
+                continue;
+            }
             match c {
+                '"' => in_string = true,
                 '{' => depth += 1,
                 '}' => {
                     depth = match depth.checked_sub(1) {
